@@ -20,7 +20,11 @@ EXPLANATION = (
 
 def jobs(tier):
     # the worker bound (workers <= ensembles - 1) is enforced by check_config: its E1 obligations are part of this property too
-    return _repex.make_jobs(tier) + [("e1", {"name": "check_config", "registry": "contracts.setup_cfg", "key": "check_config", "clause": "workers <= ensembles - 1", "cost": 5, "parallel": 8})]
+    js = _repex.make_jobs(tier) + [("e1", {"name": "check_config", "registry": "contracts.setup_cfg", "key": "check_config", "clause": "workers <= ensembles - 1", "cost": 5, "parallel": 8})]
+    if tier != "quick":
+        # L3/L4: permanent of a non-negative matrix > 0 iff a perfect matching exists (Lean 4 + Mathlib, lean/Lemmas.lean)
+        js.append(("py", {"name": "lean_lemmas", "module": "vf.lemmas", "fn": "run_lean", "theorems": ["permanent_pos_iff_exists_perm"]}))
+    return js
 
 
 replay = _repex.replay
